@@ -753,9 +753,13 @@ def c14(ctx, tr):
     total = tr.t_solve_return[0] - tr.t_entry
     if limit is not None:
         res['probes']['time-limit-set'] = 1
-        if abs(total - limit) < max(1.0, 0.01 * limit):
+        # the repository reads its clock at most three simulated reads
+        # (<= 5 ms each) away from the simulator's own entry / return stamps
+        if abs(total - limit) < 0.05:
             res['skipped'] = 'knife-edge'
             return res
+        if 0 < total - limit < 1.0:
+            res['probes']['overshoot<1s'] = 1
         res['probes']['total>limit' if total > limit else
                       'total<limit'] = 1
     site = 'no-criteria'
